@@ -81,6 +81,7 @@ type Env struct {
 	clients []*Client
 	Counter int64
 	invs    []inv
+	atStep  []stepHook
 	Notes   []string
 }
 
@@ -111,7 +112,30 @@ func (e *Env) Violate(oracle, format string, a ...interface{}) {
 // point. A non-empty result is a violation and ends the run at once.
 func (e *Env) Invariant(oracle string, f func() string) {
 	e.invs = append(e.invs, inv{oracle, f})
+	e.installOnStep()
+}
+
+// AtStep runs f (in the scheduler goroutine, at a quiescent point) when the
+// step counter reaches k.
+func (e *Env) AtStep(k uint64, f func()) {
+	e.atStep = append(e.atStep, stepHook{k, f, false})
+	e.installOnStep()
+}
+
+type stepHook struct {
+	k    uint64
+	f    func()
+	done bool
+}
+
+func (e *Env) installOnStep() {
 	e.S.OnStep = func(s *simrt.Sched) {
+		for i := range e.atStep {
+			if h := &e.atStep[i]; !h.done && s.Step() >= h.k {
+				h.done = true
+				h.f()
+			}
+		}
 		for _, i := range e.invs {
 			if d := i.f(); d != "" {
 				e.Violate(i.oracle, "%s", d)
